@@ -95,7 +95,7 @@ TEXTS["C12"] = dict(
 TEXTS["C13"] = dict(
     technique="fault injection in deterministic cluster simulation: complete message x fault matrix on the simulated transport (loss, error, duplicate, 9 contribution tamperings in both directions) + seeded double faults",
     level_text="The single-fault matrix over every prepare/execute/contribute message (request and reply) of generations with (n,t) in {(2,2),(3,2),(3,3),(4,3),(5,3)} (+(5,4),(7,4) thorough) is "
-               "enumerated completely (642 / 1420 cases) against real process services and receiver handlers; seeded runs add double faults on drawn id sets. Oracle: error to the client, no "
+               "enumerated completely (849 / 1906 cases) against real process services and receiver handlers; seeded runs add double faults on drawn id sets. Oracle: error to the client, no "
                "account in any instance's wallet store or cache, no panic in any handler call, and a subsequent fault-free generation under another name succeeds with a consistent key.",
     level_note=TRUST2 + " Faults during commit are outside this property (C13 covers prepare/execute/contribute).")
 TEXTS["C16"] = dict(
